@@ -367,8 +367,11 @@ type CR3Opts struct {
 	// PrvwField != 0: the jpeg-size field of the PRVW header says len(Preview)+PrvwField (the box
 	// itself is sized by what it holds) and a free box follows PRVW inside the preview uuid box
 	PrvwField int
-	Top64     int // bit 0: moov, bit 1: the xpacket uuid box, bit 2: the preview uuid box carry a 64-bit size (size field 1, largesize follows); bit 3: the PRVW box inside it does
-	Tail      int // 0: mdat last (as cameras write it); 1: no mdat (the last metadata box ends the stream); 2: mdat before the xpacket/preview uuid boxes
+	// LeadFree > 0: a free box with LeadFree-1 payload bytes stands in front of ftyp (no file the
+	// entry points accept; a caller of the box reader finds out from ReadFTYP's error)
+	LeadFree int
+	Top64    int // bit 0: moov, bit 1: the xpacket uuid box, bit 2: the preview uuid box carry a 64-bit size (size field 1, largesize follows); bit 3: the PRVW box inside it does
+	Tail     int // 0: mdat last (as cameras write it); 1: no mdat (the last metadata box ends the stream); 2: mdat before the xpacket/preview uuid boxes
 }
 
 func randBox(l *core.Lane) []byte {
@@ -455,8 +458,14 @@ func DrawCR3(l *core.Lane, o CR3Opts) *CR3 {
 		compat = append(compat, []string{"mif1", "miaf", "heic", "avif", "MiHB", "iso8", "mp41", "heix", "msf1", "mp42", "hevc", "MiPr"}[i%12]...)
 	}
 	ftyp := Box("ftyp", []byte("crx "), be32(1), compat)
-	out := append([]byte(nil), ftyp...)
-	c.Top = append(c.Top, Span{"ftyp", 0, len(out)})
+	var out []byte
+	if o.LeadFree > 0 {
+		out = append(out, Box("free", make([]byte, o.LeadFree-1))...)
+		c.Top = append(c.Top, Span{"lead", 0, len(out)})
+	}
+	fs := len(out)
+	out = append(out, ftyp...)
+	c.Top = append(c.Top, Span{"ftyp", fs, len(out)})
 	topExtra := func() {
 		if !o.TopExtra {
 			return
